@@ -45,7 +45,7 @@ class C04(Prop):
     LEVEL = "proof"
     COQ_TARGETS = ["theories/Properties/C04.vo"]
     MODEL_TARGETS = ["theories/Model/EvalCase.vo"]
-    CASE_HEADER = "From Boreal Require Import Base.Prelude Base.Res Model.Eval Spec.CondSem Model.EvalCase."
+    CASE_HEADER = "From Boreal Require Import Base.Prelude Spec.Regex Model.Hir.\nFrom Boreal Require Import Base.Res Model.Eval Spec.CondSem Model.EvalCase."
     HARNESS_BINS = ("scan",)
     RULE = ("typed random condition trees (depth <= 4) over 5 text strings and 8 inputs: string presence, at, in, "
             "#, @, ! with indices, of/for over string sets (any/all/none/count/percentage), for-in over ranges and "
@@ -57,7 +57,7 @@ class C04(Prop):
     TRUSTED = ["Coq 8.16.1 kernel + vm_compute", "harness/src/scan.rs", "vlib/cond.py (one AST printed to YARA text and "
                "to a Gallina term)", "string matches of plain text strings computed by Python's bytes.find"]
     ASSUMPTIONS = ["the expression parser and compile_expression are not modelled: a mis-parse shows up as a verdict "
-                   "mismatch", "floats, regex values, `matches`, `entrypoint` and module values are outside the model",
+                   "mismatch", "floats, `entrypoint` and module values are outside the model; `matches` is evaluated against Spec/Regex.v is_match on the regex lowered as in Model/Hir.v (the engine behind it is C03's subject)",
                    "percentages: only (p, n) on which the code's binary64 computation (vlib/cond.pct_quota_impl, following fix a93a70c) equals the exact ceil(p*n/100) of the model are drawn"]
 
     def budget(self, tier):
@@ -79,6 +79,8 @@ class C04(Prop):
                 c = of_at_in(rng, mem)
             elif rng.chance(1, 10):
                 c, forced_sugar = wildcard_sets(rng), rng.choice([2, 3, 7])
+            elif rng.chance(1, 12):
+                c = regex_match(rng, len(STRINGS))
             probes = [g.gint(rng.range(0, 3)) for _ in range(rng.range(0, 4))]
             if not cond.has_big_range(c) and not any(cond.has_big_range(p) for p in probes):
                 break
@@ -233,6 +235,40 @@ def wildcard_sets(rng):
                        ("un", "not", ("var", None)), ("varin", None, ("int", 0), ("filesize",))])
     c = ("of", k, se, vs) if body is None else ("for", k, se, vs, body)
     return ("un", "not", c) if rng.chance(1, 4) else c
+
+
+def regex_match(rng, nvars):
+    """`<bytes> matches /re/flags` (regex ASTs and member sampling of vlib/props/c03.py) under the connectives
+    and `defined`: an integer or undefined subject makes it undefined, not false."""
+    from . import c03
+    ci, da = rng.chance(1, 4), rng.chance(1, 3)
+    node = c03.PROP.gen_alt(rng, 0, {"wide": False, "wb": rng.chance(1, 3), "anchors": rng.chance(1, 6)}, top=True)
+    used = sorted(c03.node_bytes(node, set()))
+    alphabet = (used * 3 + c03.LITS[:6] + [0x20, 0x2D]) if used else c03.LITS
+    k = rng.below(5)
+    if k <= 1:
+        subj = c03.sample(rng, node, ci, da, alphabet)
+        if k == 1:
+            subj = rng.bytes(rng.range(0, 2), alphabet) + subj + rng.bytes(rng.range(0, 2), alphabet)
+    elif k == 2:
+        b = bytearray(c03.sample(rng, node, ci, da, alphabet) or b"a")
+        b[rng.below(len(b))] = rng.choice(alphabet)
+        subj = bytes(b)
+    else:
+        subj = rng.bytes(rng.range(0, 6), alphabet)
+    se = rng.choice([("bytes", subj[:16]), ("bytes", subj[:16]), ("bytes", subj[:16]), ("ext", 1, "ext_s")])
+    m = ("matches", se, json.dumps(node), ci, da)
+    r = rng.below(6)
+    if r == 0:
+        return ("un", "not", m)
+    if r == 1:
+        return ("defined", m)
+    if r == 2:
+        return (rng.choice(["and", "or"]), [m, ("var", rng.below(nvars))])
+    if r == 3:
+        return ("for", rng.choice(["any", "all", "none"]), None, sorted(set(rng.below(nvars) for _ in range(2))),
+                (rng.choice(["and", "or"]), [m, ("var", None)]))
+    return m
 
 
 def of_at_in(rng, mem):
